@@ -228,6 +228,19 @@ def e_cmp(op, a, b):
     if isnum(a) and isnum(b):
         a, b = num(a), num(b)
         return _Fr(int({"le": a <= b, "lt": a < b, "eq": a == b, "ne": a != b}[op]))
+    for u, w in ((a, b), (b, a)):
+        # numeric unknowns are finite reals: comparing one with +-inf is decided
+        if isnum(u) and isinstance(num(u), float) and num(u) in (inf, -inf) and not isnum(w) and "__inf" not in _consts(w) and "__nan" not in _consts(w) and not has_casadi_symbol(w):
+            pos = num(u) == inf
+            if op == "eq":
+                return _Fr(0)
+            if op == "ne":
+                return _Fr(1)
+            if op in ("le", "lt"):
+                # u (op) w  or  w (op) u
+                if u is a:
+                    return _Fr(0) if pos else _Fr(1)
+                return _Fr(1) if pos else _Fr(0)
     if op == "eq" and _same(a, b):
         return _Fr(1)
     if op == "le" and _same(a, b):
@@ -1369,7 +1382,8 @@ def evalf(a):
         elif is_numeric_entry(x):
             try:
                 e.append(to_float(x))
-            except Undecided:
+            except Undecided as ex_:
+                ex_.acknowledge()
                 e.append(_fold(x))        # value of an uninterpreted user function at numbers: stays symbolic
         else:
             e.append(x)
@@ -1977,8 +1991,37 @@ class Opti:
         self._log = []          # chronological ghost log of every Opti-level effect
         self._user = []
 
+    def _in_symbolic_iteration(self, n, m, role):
+        """Opti.variable / parameter called inside the verified (arbitrary) iteration k of an invariant-cut loop:
+        the symbol created there is the k-th member of a family, one family per creation site of the body"""
+        c = _core._CTX[0]
+        if c is None or not c.loop_ctx:
+            return None
+        tag, k, cnt = c.loop_ctx[-1]
+        site = cnt["n"]
+        cnt["n"] += 1
+        key = (tag, site, role, n * m)
+        if not hasattr(self, "_loop_families"):
+            self._loop_families = {}
+        if key not in self._loop_families:
+            self._loop_families[key] = self.family("it%d_%s%d" % (len(self._loop_families), role, site), n * m, role=role)
+        return reshape(self._loop_families[key](k), n, m)
+
+    def loop_family(self, tag, site, n, role="x"):
+        """the family created at creation site `site` of the loop `tag` (for sidecar invariants)"""
+        if not hasattr(self, "_loop_families"):
+            self._loop_families = {}
+        key = (tag, site, role, n)
+        if key not in self._loop_families:
+            self._loop_families[key] = self.family("it%d_%s%d" % (len(self._loop_families), role, site), n, role=role)
+        return self._loop_families[key]
+
     # -- declaration
     def variable(self, n=1, m=1, *a):
+        n, m = int(unwrap_int(n)), int(unwrap_int(m))
+        r = self._in_symbolic_iteration(n, m, "x")
+        if r is not None:
+            return r
         v = MX.sym("opti%d_x_%d" % (self._id, len(self._vars) + 1), int(unwrap_int(n)), int(unwrap_int(m)))
         v._opti = ("x", self._id)
         self._vars.append(v)
@@ -1988,6 +2031,10 @@ class Opti:
         return v
 
     def parameter(self, n=1, m=1, *a):
+        n, m = int(unwrap_int(n)), int(unwrap_int(m))
+        r = self._in_symbolic_iteration(n, m, "p")
+        if r is not None:
+            return r
         p = MX.sym("opti%d_p_%d" % (self._id, len(self._pars) + 1), int(unwrap_int(n)), int(unwrap_int(m)))
         p._opti = ("p", self._id)
         self._pars.append(p)
@@ -2085,7 +2132,7 @@ class Opti:
             a, b = _affine_in(k, n)
             if a is None:
                 raise RuntimeError("You cannot set initial/value of an arbitrary expression. Use symbols or simple mappings of symbols.")
-            val = e_div(e_sub(v, b), a)
+            val = e_div(v, a)        # CasADi solves the linear map only; a constant offset in the key is ignored (validated natively)
             if n in seen and not _same(seen[n], val):
                 raise RuntimeError("Initial/value assignment with mapping is ambiguous.")
             seen[n] = val
